@@ -230,7 +230,7 @@ def binding_twin(shape: int, v0: int, v1: str, k2: int, x2: int, w0: int, w1: in
 
 
 _ALL = [{"sig": s, "form": f, "mode": m} for s in range(len(SIGS)) for f in (0, 1, 2) for m in (0, 1)]
-_QUICK = [x for x in _ALL if (x["sig"] in (1, 4, 6) and x["form"] in (0, 2)) or (x["sig"] in (5, 7) and x["form"] == 1 and x["mode"] == 1) or (x["sig"] == 0 and x["mode"] == 0)]
+_QUICK = [x for x in _ALL if (x["sig"] in (1, 4, 6) and x["form"] in (0, 2) and not (x["sig"] == 6 and x["form"] == 2 and x["mode"] == 1)) or (x["sig"] in (5, 7) and x["form"] == 1 and x["mode"] == 1) or (x["sig"] == 0 and x["mode"] == 0)]
 SPEC = {
     "property": "C08",
     "functions": FUNCTIONS,
